@@ -523,6 +523,12 @@ class BaseNetQASMConnection(abc.ABC):
 
         subroutine = self._builder.subrt_compile_subroutine(protosubroutine)
 
+        # The pending operations (including the declaration and return of their
+        # arrays and registers) are now owned by the compiled subroutine, exactly as
+        # after a flush. Reset the builder bookkeeping so that later subroutines do not
+        # declare and return these arrays again (which would erase their results).
+        self._builder._reset()
+
         return subroutine
 
     def commit_protosubroutine(
